@@ -211,6 +211,41 @@ fn shared_component_histories(r: &mut Report) {
     r.evaluations += evals;
 }
 
+/// The command line answers the same in every process: a project whose tags use multi-name `~` / `!` filters (the order of the names is part of
+/// the meaning of `~`), aliases and pipelines is run 12 times, each in a fresh directory and process; stdout and every written file must agree.
+/// A replay check like the 16 unseeded table orders: it owns no choice, it shows that there is none left (per-process hash seeds included).
+fn cli_processes(r: &mut Report) {
+    use crate::cli::{cli_available, run_cli, Sandbox};
+    if !cli_available() { r.machinery_errors.push("asca binary not built".into()); return; }
+    let rules = "@ first\n    a > e\n@ second\n    e > i\n@ third\n    i > o\n@ fourth\n    o > u / _#\n";
+    let config = "@one [\"w\"]:\n    \"rules\" ~ {\"third\", \"first\", \"second\"}\n@two [\"w\"]:\n    \"rules\" ~ {\"second\", \"fourth\", \"first\", \"third\"}\n@three %one $al:\n    \"rules\" ! {\"fourth\", \"first\"}\n@four %two [\"w\"]:\n    \"rules\" ~ {\"first\", \"third\"},\n    \"rules\" ~ {\"fourth\", \"second\", \"first\"}\n";
+    let n = 12;
+    let mut seen: Vec<String> = vec![];
+    for k in 0..n {
+        let sb = Sandbox::new("c01c", k);
+        sb.write("rules.rsca", rules); sb.write("w.wsca", "pa.ta\nqǀa.ɢǀa\nᵐp̪a\nta.pa"); sb.write("al.alias", "@into\n    q > k\n@from\n    [+nasal] > +N\n"); sb.write("config.asca", config);
+        let o = run_cli(&sb.dir, &["seq", ".", "-o", "-y", "-a"]);
+        let mut obs = format!("exit {:?}\nstdout:\n{}\n", o.code, o.stdout);
+        for tag in sb.list("out") { for f in sb.list(&format!("out/{}", tag)) { obs += &format!("out/{}/{}:\n{}\n", tag, f, sb.read(&format!("out/{}/{}", tag, f)).unwrap_or_default()); } }
+        let o2 = run_cli(&sb.dir, &["conv", "tag", "four", "-p", ".", "-r", "-o", "four.json"]);
+        obs += &format!("conv exit {:?}\n{}\n", o2.code, sb.read("four.json").unwrap_or_default());
+        let o3 = run_cli(&sb.dir, &["run", "-r", "rules.rsca", "-w", "w.wsca"]);
+        obs += &format!("run exit {:?}\n{}\n", o3.code, o3.stdout);
+        seen.push(obs);
+    }
+    crate::cli::cleanup("c01c");
+    let distinct: BTreeSet<&String> = seen.iter().collect();
+    r.evaluations += n as u64 * 3;
+    r.boxes.push(json!({"box": "command line in 12 fresh processes (seq with multi-name filters, aliases, pipelines; conv tag -r; run)", "processes": n * 3, "distinct_observations": distinct.len(), "observation_bytes": seen[0].len()}));
+    r.guard(seen[0].contains("out/four/") && seen[0].len() > 400, "the command-line project produced output files");
+    if distinct.len() != 1 {
+        let other = seen.iter().find(|x| **x != seen[0]).unwrap();
+        let (la, lb): (Vec<&str>, Vec<&str>) = (seen[0].lines().collect(), other.lines().collect());
+        let at = la.iter().zip(lb.iter()).position(|(x, y)| x != y).unwrap_or(0);
+        r.viol(Viol { key: "cli|process-dependent-output".into(), desc: format!("the same project gives {} different results in {} processes; first difference at line {}: `{}` vs `{}`", distinct.len(), n, at + 1, la.get(at).unwrap_or(&""), lb.get(at).unwrap_or(&"")), case: json!({"kind": "history"}) });
+    }
+}
+
 pub fn run() -> i32 {
     let mut r = Report::new("C01");
     let thorough = r.thorough();
@@ -265,6 +300,7 @@ pub fn run() -> i32 {
     r.guard(base.len() > 5000, "more than 5000 observations per process");
     r.evaluations = compared; r.transitions = orders.len() as u64; r.validated = compared; r.nontrivial = renderable; r.states_count_override = Some(base.len() as u64);
     in_process(&mut r);
+    cli_processes(&mut r);
     r.sample(json!({"order": "front:ɢǀ", "observation": base.iter().find(|l| l.contains("qǀ") || l.contains("ɢǀ")).cloned()}));
     r.sample(json!({"observation": base.get(base.len() / 2).cloned()}));
     r.assumptions.push("the 16 unset-order processes are a replay check (the OS seeds their RandomState), not an exhaustive part".into());
